@@ -726,6 +726,10 @@ def run_session(world, model, sdesc, armed, index, logger=None, gen_cb=None, che
     except ModelMismatch as e:
         raise core.Desync(f"cannot map real blocks onto the listing: {e}")
     if sdesc is None:
+        # (a hint for the generator only: which blocks carry an alignment
+        # requirement right now)
+        at_ = m.aux_data.get("alignment")
+        model.align_hint = {str(b.uuid): a for b, a in (at_.data.items() if at_ is not None else []) if isinstance(b, gtirb.ByteBlock)}
         sdesc = gen_cb(model)
         if sink is not None:
             # recorded before anything runs: a violation raised from inside
